@@ -52,13 +52,17 @@ def instances(tier):
                 L = sk.lens.get(int(mm.group(1)), 1)
                 start = mm.start() + shift
                 offs.update(range(start + 1, start + L + 1))
+                if dummy[start + L: start + L + 1] == " ":
+                    offs.add(start + L + 1)  # after the name and one blank: nothing is being typed there
                 shift += L - len(mm.group(0))
             for i, ch in enumerate(dummy):
                 if ch == "\n" and i % 2 == 0:
                     offs.add(i)
             offs = sorted(offs)
         for off in offs:
-            out.append(("assist.%s.o%03d" % (sk.name, off), dict(k=k, off=off)))
+            # quick: one slot of the six-slot skeleton is pinned to a fixed spelling (a third of the partitions)
+            pin = {4: "p"} if (tier == "quick" and sk.name == "a01_scopes") else {}
+            out.append(("assist.%s.o%03d" % (sk.name, off), dict(k=k, off=off, pin=pin)))
     return out
 
 
@@ -69,6 +73,8 @@ def make_run(p):
     def run():
         E = core.ENGINE
         names = make_names(sk, alphabet=[(ord(c), ord(c)) for c in "ghjkmq"])
+        for slot, spelling in (p.get("pin") or {}).items():
+            names[int(slot)] = spelling
         pat = force_partition(names)
         files = instantiate(sk, names)
         src = files["main.py"]
